@@ -50,7 +50,7 @@ def option_variants(rng):
 
 
 def cases(O):
-    n = 500 if O.tier == "quick" else 3000
+    n = 500 if O.tier == "quick" else 9000
     base = F.regress_cases() + F.snippet_cases()[:60] + F.generated_cases(O.seed, n, "c05", cfg_fn=F.config_variants)
     out = []
     for c in base:
